@@ -602,7 +602,7 @@ func init() {
 	sim.Register(&sim.Check{
 		ID: "C21", Title: "Multisig proposals execute once, after enough distinct votes", World: "ledger",
 		Gen: multisigScenario.Gen, Exec: multisigScenario.Exec,
-		Quick: sim.Budget{Runs: 320, WallS: 80}, Thorough: sim.Budget{Runs: 24000, WallS: 1200},
+		Quick: sim.Budget{Runs: 300, WallS: 75}, Thorough: sim.Budget{Runs: 24000, WallS: 1000},
 		LevelText: "seeded search over multisig histories: wallets registered with 2-21 signers and thresholds 1..n+1 using real threshold key shares (encryption.GenerateThresholdKeyShares) or, as a fault, signer keys unrelated to the wallet key; votes by seeded signers on a handful of proposals per wallet, repeated (duplicate votes with a fresh nonce), with incompatible content, forged signatures, another signer's signature, signatures over another transfer or by the wallet key, by unauthorised senders, after clock jumps to just before / at / after the proposal's expiry (block time), byte-identical replays; " +
 			"the oracle keeps its own count of distinct registered signers whose signature it verified itself with the shipped scheme, per proposal life, and checks on the MPT diff: a wallet is debited only by an executing vote, at most once per proposal, only with >= threshold counted votes, by exactly the proposed amount to the proposed recipient, and the recorded threshold signature verifies under the wallet's group key",
 		LevelNote: "a proposal that expired and was voted again is a new proposal (it needs threshold-many fresh votes); StateContext.Validate() runs before the contract on the pinned tree, so the chain never verifies the signed transfer's signature — the oracle does",
